@@ -545,6 +545,14 @@ class NiftyRaised(Exception):
         super().__init__(f"{phase}: {type(exc).__name__}: {str(exc)[:200]}")
 
 
+class ProbeDomainError(Exception):
+    """a linear map observed by the harness returned a field on an unexpected domain"""
+
+    def __init__(self, what):
+        self.what = what
+        super().__init__(what)
+
+
 class Probe:
     __slots__ = ("v0", "lin", "tlay", "vec0", "veclin", "J", "A", "M", "imagA", "imagM")
 
@@ -564,6 +572,13 @@ def probe_operator(I, F, xf, wm, lay_in, adjoint=True, metric=True):
             raise NiftyRaised(phase, e)
     p.v0 = guard("apply", lambda: F(xf))
     p.lin = guard("apply-linearization", lambda: F(I.Linearization.make_var(xf, wm)))
+    if p.lin.jac.domain is not F.domain or p.lin.jac.target is not F.target:
+        raise ProbeDomainError("jac")
+    if p.lin.val.domain is not F.target or p.v0.domain is not F.target:
+        raise ProbeDomainError("val")
+    if p.lin.metric is not None and (p.lin.metric.domain is not F.domain
+                                     or p.lin.metric.target is not F.domain):
+        raise ProbeDomainError("metric")
     p.tlay = layout_of_value(I, p.v0)
     p.vec0 = p.tlay.pack(field_to_np(I, p.v0), expand=True)
     p.veclin = p.tlay.pack(field_to_np(I, p.lin.val), expand=True)
@@ -589,6 +604,9 @@ def dense_linear(I, fn, lay_in, dom_in, lay_out, expand_out):
         e = np.zeros(n)
         e[j] = 1.
         y = field_to_np(I, fn(np_to_field(I, dom_in, lay_in.unpack(e))))
+        if lay_out.multi != isinstance(y, dict) or (lay_out.multi and set(y) != {
+                k for k, _, _ in lay_out.items}):
+            raise ProbeDomainError("output of a linear map")
         if not expand_out:
             worst_imag = max(worst_imag, lay_out.imag_parts_of_real(y))
         M[:, j] = lay_out.pack(y, expand=expand_out)
@@ -889,12 +907,12 @@ class Gen:
 
     def __init__(self, rng, md=True, nkeys=(2, 3), cplx=False, steps=(3, 8), total=False,
                  maxdepth=6, energy=0.0, same_dt=False, p_subst=0.08, p_share=0.3,
-                 p_clone=0.0, leafops=False, jax=True):
+                 p_clone=0.0, leafops=False, jax=True, mdweight=1):
         self.rng = rng
         self.md, self.cplx, self.total = md, cplx, total
         self.maxdepth, self.energy = maxdepth, energy
         self.pr_subst, self.pr_share = p_subst, p_share
-        self.leafops, self.jax = leafops, jax
+        self.leafops, self.jax, self.mdweight = leafops, jax, int(mdweight)
         self.nodes, self.info = [], []
         self.inputs, self.virtual, self.env = {}, {}, {}
         self.banned = set()
@@ -1003,8 +1021,9 @@ class Gen:
     # -- productions ------------------------------------------------------------------
     def step(self):
         rng = self.rng
-        kinds = ["ptw"]*5 + ["affine"]*3 + ["binary"]*5 + ["reduce", "struct", "pack", "mdop",
-                                                           "leaf", "cplxop", "subst"]
+        kinds = ["ptw"]*5 + ["affine"]*3 + ["binary"]*5 + ["reduce", "struct", "leaf", "cplxop",
+                                                           "subst"] \
+            + ["pack", "mdop"]*self.mdweight
         for _ in range(20):
             k = kinds[int(rng.integers(0, len(kinds)))]
             r = getattr(self, "p_" + k)()
